@@ -23,6 +23,9 @@ mod send_rate;
 #[cfg(test)]
 mod packet_tests;
 
+#[cfg(uflow_verif)]
+pub use send_rate::{SendRateComp, FeedbackData};
+
 const INITIAL_RTT_ESTIMATE_MS: u64 = 150;
 const INITIAL_RTO_ESTIMATE_MS: u64 = 4*INITIAL_RTT_ESTIMATE_MS;
 const MIN_SYNC_TIMEOUT_MS: u64 = 2000;
@@ -81,10 +84,34 @@ pub struct HalfConnection {
 
     sync_reply: bool,
     sync_keepalive_interval_ms: Option<u64>,
+
+    #[cfg(uflow_verif)]
+    verif_id: u64,
 }
 
 impl HalfConnection {
     pub fn new(config: Config) -> Self {
+        #[cfg(uflow_verif)]
+        let verif_id = crate::verif::trace::new_id();
+        #[cfg(uflow_verif)]
+        {
+            crate::verif::trace::set_current(verif_id);
+            crate::verif::trace::emit(crate::verif::trace::Event::HcCreated {
+                tx_frame_base_id: config.tx_frame_base_id,
+                rx_frame_base_id: config.rx_frame_base_id,
+                tx_frame_window_size: config.tx_frame_window_size,
+                rx_frame_window_size: config.rx_frame_window_size,
+                tx_packet_base_id: config.tx_packet_base_id,
+                rx_packet_base_id: config.rx_packet_base_id,
+                tx_packet_window_size: config.tx_packet_window_size,
+                rx_packet_window_size: config.rx_packet_window_size,
+                tx_bandwidth_limit: config.tx_bandwidth_limit,
+                tx_alloc_limit: config.tx_alloc_limit,
+                rx_alloc_limit: config.rx_alloc_limit,
+                keepalive_interval_ms: config.keepalive_interval_ms,
+            });
+        }
+
         Self {
             packet_sender: packet_sender::PacketSender::new(config.tx_packet_window_size, config.tx_packet_base_id, config.tx_alloc_limit),
             pending_queue: pending_queue::PendingQueue::new(),
@@ -109,6 +136,9 @@ impl HalfConnection {
 
             sync_reply: false,
             sync_keepalive_interval_ms: config.keepalive_interval_ms,
+
+            #[cfg(uflow_verif)]
+            verif_id,
         }
     }
 
@@ -125,14 +155,20 @@ impl HalfConnection {
     }
 
     pub fn send(&mut self, data: Box<[u8]>, channel_id: u8, mode: SendMode) {
+        #[cfg(uflow_verif)]
+        crate::verif::trace::set_current(self.verif_id);
         self.packet_sender.enqueue_packet(data, channel_id, mode, self.flush_id);
     }
 
     pub fn receive(&mut self, sink: &mut impl PacketSink) {
+        #[cfg(uflow_verif)]
+        crate::verif::trace::set_current(self.verif_id);
         self.packet_receiver.receive(sink);
     }
 
     pub fn handle_data_frame(&mut self, frame: frame::DataFrame) {
+        #[cfg(uflow_verif)]
+        crate::verif::trace::set_current(self.verif_id);
         if self.frame_ack_queue.window_contains(frame.sequence_id) {
             self.frame_ack_queue.mark_seen(frame.sequence_id, frame.nonce);
 
@@ -143,6 +179,8 @@ impl HalfConnection {
     }
 
     pub fn handle_sync_frame(&mut self, frame: frame::SyncFrame) {
+        #[cfg(uflow_verif)]
+        crate::verif::trace::set_current(self.verif_id);
         if let Some(next_frame_id) = frame.next_frame_id {
             self.frame_ack_queue.resynchronize(next_frame_id);
         }
@@ -155,6 +193,8 @@ impl HalfConnection {
     }
 
     pub fn handle_ack_frame(&mut self, frame: frame::AckFrame) {
+        #[cfg(uflow_verif)]
+        crate::verif::trace::set_current(self.verif_id);
         let rtt_ms = self.send_rate_comp.rtt_ms();
 
         for frame_ack in frame.frame_acks.into_iter() {
@@ -166,6 +206,8 @@ impl HalfConnection {
     }
 
     pub fn step(&mut self) {
+        #[cfg(uflow_verif)]
+        crate::verif::trace::set_current(self.verif_id);
         let now = time::Instant::now();
 
         let now_ms = (now - self.time_base).as_millis() as u64;
@@ -196,6 +238,8 @@ impl HalfConnection {
     }
 
     pub fn flush(&mut self, sink: &mut impl FrameSink) {
+        #[cfg(uflow_verif)]
+        crate::verif::trace::set_current(self.verif_id);
         // Send as many frames as possible
         self.emit_frames(self.now_ms, self.rtt_ms, self.rto_ms, self.flush_id, sink);
     }
@@ -432,6 +476,110 @@ impl HalfConnection {
         dfe.finalize();
 
         return Ok(());
+    }
+}
+
+/// Read-only snapshot of a half connection's internal state (verification builds only).
+#[cfg(uflow_verif)]
+#[derive(Clone, Debug, PartialEq)]
+pub struct HcProbe {
+    pub verif_id: u64,
+
+    pub tx_packet_base_id: u32,
+    pub tx_packet_next_id: u32,
+    pub tx_packet_window_size: u32,
+    pub tx_alloc: usize,
+    pub tx_max_alloc: usize,
+    pub tx_total_size: usize,
+    pub send_queue_len: usize,
+    pub pending_queue_len: usize,
+    pub resend_queue_len: usize,
+
+    pub tx_frame_window_base_id: u32,
+    pub tx_frame_next_id: u32,
+    pub tx_frame_window_size: u32,
+    pub tx_frame_log_base_id: u32,
+    pub tx_frame_log_len: u32,
+
+    pub rx_packet_base_id: u32,
+    pub rx_packet_end_id: u32,
+    pub rx_packet_window_size: u32,
+    pub rx_alloc: usize,
+    pub rx_max_alloc: usize,
+
+    pub rx_frame_base_id: u32,
+    pub ack_queue_len: usize,
+    pub ack_queue_capacity: usize,
+
+    pub now_ms: u64,
+    pub flush_alloc: isize,
+    pub flush_id: u32,
+    pub sync_reply: bool,
+    pub sync_timeout_base_ms: u64,
+
+    pub rate_mode: u8,
+    pub send_rate: u32,
+    pub max_send_rate: u32,
+    pub rtt_s: Option<f64>,
+    pub rtt_ms: Option<u64>,
+    pub rto_ms: Option<u64>,
+    pub prev_loss_rate: f64,
+    pub nofeedback_exp_ms: Option<u64>,
+    pub nofeedback_idle: bool,
+}
+
+#[cfg(uflow_verif)]
+impl HalfConnection {
+    pub fn verif_id(&self) -> u64 {
+        self.verif_id
+    }
+
+    pub fn verif_probe(&self) -> HcProbe {
+        HcProbe {
+            verif_id: self.verif_id,
+
+            tx_packet_base_id: self.packet_sender.base_id(),
+            tx_packet_next_id: self.packet_sender.next_id(),
+            tx_packet_window_size: self.packet_sender.verif_window_size(),
+            tx_alloc: self.packet_sender.verif_alloc(),
+            tx_max_alloc: self.packet_sender.verif_max_alloc(),
+            tx_total_size: self.packet_sender.total_size(),
+            send_queue_len: self.packet_sender.pending_count(),
+            pending_queue_len: self.pending_queue.len(),
+            resend_queue_len: self.resend_queue.len(),
+
+            tx_frame_window_base_id: self.frame_queue.base_id(),
+            tx_frame_next_id: self.frame_queue.next_id(),
+            tx_frame_window_size: self.frame_queue.verif_window_size(),
+            tx_frame_log_base_id: self.frame_queue.verif_log_base_id(),
+            tx_frame_log_len: self.frame_queue.verif_log_len(),
+
+            rx_packet_base_id: self.packet_receiver.base_id(),
+            rx_packet_end_id: self.packet_receiver.verif_end_id(),
+            rx_packet_window_size: self.packet_receiver.verif_window_size(),
+            rx_alloc: self.packet_receiver.verif_alloc(),
+            rx_max_alloc: self.packet_receiver.verif_max_alloc(),
+
+            rx_frame_base_id: self.frame_ack_queue.base_id(),
+            ack_queue_len: self.frame_ack_queue.verif_len(),
+            ack_queue_capacity: self.frame_ack_queue.verif_capacity(),
+
+            now_ms: self.now_ms,
+            flush_alloc: self.flush_alloc,
+            flush_id: self.flush_id,
+            sync_reply: self.sync_reply,
+            sync_timeout_base_ms: self.sync_timeout_base_ms,
+
+            rate_mode: self.send_rate_comp.verif_mode_tag(),
+            send_rate: self.send_rate_comp.send_rate() as u32,
+            max_send_rate: self.send_rate_comp.verif_max_send_rate(),
+            rtt_s: self.send_rate_comp.rtt_s(),
+            rtt_ms: self.send_rate_comp.rtt_ms(),
+            rto_ms: self.send_rate_comp.rto_ms(),
+            prev_loss_rate: self.send_rate_comp.verif_prev_loss_rate(),
+            nofeedback_exp_ms: self.send_rate_comp.verif_nofeedback_exp_ms(),
+            nofeedback_idle: self.send_rate_comp.verif_nofeedback_idle(),
+        }
     }
 }
 
